@@ -26,8 +26,12 @@ MANIFEST = dict(
          "independent urllib oracle. Right level: fidelity depends on every reserved character in every field.",
     ref="DESIGN.md section 5, C10",
     technique="Coq proof over a Gallina model + translator-generated tables + model/implementation correspondence run",
-    note="Assumed (Section variables, validated through hooks): url crate parse-of-serialisation is the identity on a link's "
-         "trackers (a theorem for trackers in normal form, X10), HostPort parse-of-display is the identity on its peers (C17). "
+    note="Since X14 the typed parsers are concrete inside stated fragments (Model/UrlConcrete.v: c_url_norm = X10's model of Url::parse, "
+         "c_hp_norm = C17's HostPort over X9's Host::parse) and the own-parser round trip is proved with NO library variable left for links "
+         "whose trackers are normal URLs and whose peers are printed host:port values (c10_own_parser_roundtrip_concrete); the fully concrete "
+         "parser is compared with the magnet_parse hook on every text of the run inside the fragments. Assumed outside the fragments "
+         "(Section variables of the general theorems, validated through hooks): url crate parse-of-serialisation is the identity on a link's "
+         "trackers, HostPort parse-of-display is the identity on its peers (IDNA / non-ASCII hosts, file: URLs, URLs without `//`). "
          "from_utf8_lossy is no longer assumed: Model/Utf8.v, compared on >= 100 000 byte strings per quick run with the parser, with std "
          "called directly and with CPython. "
          "Typed fields are compared modulo url-crate normal form; 'distinct tracker' = distinct stored text. "
@@ -1208,7 +1212,67 @@ def run(ctx):
     # the extracted composition build -> encode -> loader + infohash -> link_cmd and against the command line itself
     from props import e2e_create
     e2e_create.run_link(ctx, ctx.n(150, 2500))
+    x14_tie(ctx, norm, [u.decode("utf-8", "replace") if isinstance(u, bytes) else u for u in uris] + list(CORPUS_TEXT) + texts + lossy_rejects)
     return finish(ctx)
+
+
+def x14_tie(ctx, norm, texts):
+    """X14: MagnetLink::parse with NO library variable left (UrlConcrete.c_own_parse = own_parse Utf8.lossy c_url_norm c_hp_norm) against
+    the `magnet_parse` hook on every printed URI and every parser text of this run whose tr / x.pe values the model places inside the
+    fragments; and every tracker / peer text the run normalised through the hooks (Norm) through c_url_norm / c_hp_norm."""
+    from props import urlconcrete
+    tie = urlconcrete.Tie(ctx, "c10")
+    for t in norm.url:
+        tie.url(t, "tracker text of the C10 run")
+    for p in norm.hp:
+        tie.hostport(p, "peer text of the C10 run")
+    from props import c17
+    for _ in range(ctx.n(2500, 40000)):                     # C17's HOST:PORT generator: odd ports (signs, zeros, non-ASCII digits), hosts in every spelling
+        cls, t = c17.gen_text(ctx.rng)
+        tie.hostport(t, "c17 generator/" + cls)
+    tie.run()
+    # the tables the run collected through the `trackers` / `hpparse` hooks are the instances inside the fragments
+    for t, v in norm.url.items():
+        m = tie.model_url.get(t.encode("utf-8"))
+        if m is None or not m["in"]:
+            ctx.count("x14_norm_table_url_out_of_fragment"); continue
+        ctx.count("x14_norm_table_url_in_fragment")
+        got = ("err", None) if v is None else ("ok", v.encode("utf-8"))
+        if m["norm"] != got:
+            ctx.cov["disagreements_checked"] += 1
+            ctx.violation("model-impl-disagreement", "X14: Metainfo::trackers gives %r for the tracker text %r, c_url_norm %r" % (v, t, m["norm"]),
+                          {"kind": "x14-url", "x14_kind": "url", "text": t, "text_hex": lib.hexs(t.encode("utf-8")), "occurs_in": "Norm.url (trackers hook)"})
+    seen = list(dict.fromkeys(t for t in texts if isinstance(t, str)))
+    impl = ctx.harness(["mparse " + lib.hexs(t) for t in seen])
+    model = ctx.model(["c_mparse " + lib.hexs(t) for t in seen])
+    for t, i, m in zip(seen, impl, model):
+        ctx.cov["evaluations"] += 1
+        f = m.split(" ")
+        case = {"kind": "parse", "x14": "c_mparse", "text": t, "impl": i, "model": m,
+                "reproduce_hook": "printf 'mparse %s\\n' | imdl-verif-harness   # model: printf 'c_mparse %s\\n' | modelrun" % (lib.hexs(t), lib.hexs(t))}
+        if f[0] not in ("IN", "OUT") or len(f) < 2:
+            ctx.violation("infrastructure", "X14 c_mparse: model runner replied %r" % m[:200], case); continue
+        if f[1] == "UNMODELLED":
+            ctx.count("x14_mparse_unmodelled"); continue
+        if f[0] == "OUT":
+            ctx.count("x14_mparse_out_of_fragment"); continue
+        ctx.count("x14_mparse_in_fragment")
+        ctx.cov["traces_validated_against_impl"] += 1
+        ok = i.startswith("OK ")
+        ctx.distinct(("x14-mparse", ok, t[:12], len(t) // 16))
+        if f[1] == "OK":
+            want = ("OK", f[2], f[3], f[4], f[5])
+        else:
+            want = ("ERR",)
+        if ok:
+            g = i.split(" ")
+            got = ("OK", g[1], g[2], g[3], g[4])
+        else:
+            got = ("ERR",)
+        if got != want:
+            ctx.cov["disagreements_checked"] += 1
+            ctx.violation("model-impl-disagreement", "X14: MagnetLink::parse and own_parse with the concrete typed parsers differ on %r: impl %r, model %r"
+                          % (t, got, want), dict(case, relation="c_own_parse"))
 
 
 def coqchk(ctx):
@@ -1226,8 +1290,10 @@ def coqchk(ctx):
 def finish(ctx):
     ctx.assumptions += [
         "Url::parse(u.as_str()) == u for every tracker a link holds (url crate invariant) - hypothesis of c10_own_parser_roundtrip, "
-        "checked through the hooks for every tracker value used",
-        "HostPort::from_str(p.to_string()) == p for every peer a link holds (C17) - same, checked for every peer value used",
+        "checked through the hooks for every tracker value used; since X14 a THEOREM of the concrete instance c_url_norm for every tracker in "
+        "normal form (c10_concrete_typed_parsers, c10_own_parser_roundtrip_concrete)",
+        "HostPort::from_str(p.to_string()) == p for every peer a link holds (C17) - same, checked for every peer value used; since X14 a "
+        "THEOREM of the concrete instance c_hp_norm for every printed host:port value (c_hp_fixed)",
         "String::from_utf8_lossy behaves as read in library/core/src/str/lossy.rs (Utf8Chunks) and library/alloc/src/string.rs - modelled in "
         "Model/Utf8.v, no longer a hypothesis of the theorems (c10_own_parser_roundtrip_utf8, c10_own_parser_any_name); compared on every "
         "run with the parser through the magnet_parse hook, with std called directly, and with CPython's errors=\"replace\" decoder",
@@ -1248,11 +1314,14 @@ def finish(ctx):
              "`from-link` rejections; end to end with create (counts x5_*): C05's generator of `create` command lines - real "
              "`create --link --output`, then `link [--peer] [--select-only]` of the written file, compared with the extracted "
              "composition build -> encode -> loader + infohash -> link_cmd (and the lossy path) and with the command line itself. "
+             "X14 (counts x14_*): every printed URI and every parser text of the run through UrlConcrete.c_own_parse (own_parse with "
+             "Utf8.lossy, c_url_norm, c_hp_norm: no library variable left) against the magnet_parse hook when the model places its tr / x.pe "
+             "values inside the fragments; every tracker / peer text the run normalised, through c_url_norm / c_hp_norm and the hooks. "
              "A case is distinct/non-trivial by (set of reserved-character classes present, #trackers, #peers, "
              "indices present) resp. (oracle class, verdict, prefix, %/+/# present) resp. (list sizes before/after de-duplication) resp. "
              "(the lengths of the valid and invalid parts of the Utf8Chunks items of a string that is not pure ASCII).",
         trusted_base=["Coq 8.16.1 kernel (coqc), vm_compute for the 256-entry safe-set table", "tools/rs2v.py + tools/rs2v_magnet.py (GenMagnet)",
-                      "extraction with ExtrOcamlBasic + runner/driver.d/magnet.ml, runner/driver.d/utf8.ml, runner/driver.d/endtoendshow.ml", "Rust hooks magnet_print / magnet_parse / metainfo_trackers / "
+                      "extraction with ExtrOcamlBasic + runner/driver.d/magnet.ml, runner/driver.d/utf8.ml, runner/driver.d/endtoendshow.ml, runner/driver.d/urlconcrete.ml (c_mparse, c_url, c_hp)", "Rust hooks magnet_print / magnet_parse / metainfo_trackers / "
                       "hostport_parse + harness line protocol", "Python oracle in tools/props/c10.py (urllib.parse, hashlib, lib.bdecode_strict, bytes.decode errors=replace)",
                       "the 20-line Rust program UTF8_STD_RS in tools/props/c10.py (calls String::from_utf8_lossy / utf8_chunks directly; rustc)"],
     )
@@ -1263,8 +1332,16 @@ def replay(ctx, path):
     if case.get("e2e"):
         from props import e2e_create
         return e2e_create.replay(ctx, case)
+    if "x14_kind" in case:
+        from props import urlconcrete
+        return urlconcrete.replay(ctx, case)
     ctx.need_rust(); ctx.need_runner()
     kind = case.get("kind")
+    if case.get("x14") == "c_mparse":
+        print("text  :", case["text"])
+        print("impl  :", ctx.harness(["mparse " + lib.hexs(case["text"])])[0])
+        print("model :", ctx.model(["c_mparse " + lib.hexs(case["text"])])[0])
+        return 0
     if kind == "print":
         c = case["input"]
         line = print_line(c)
